@@ -635,6 +635,61 @@ func runC16(s *Sim) {
 			s.Violate("C16.inbound-reply-order", "", "ReceiveReplyCall returned %v, the broker sent %v", firstN(got, 8), firstN(inboundReplies, 8))
 		}
 	}
+	// ---- probe: concurrent calls, acknowledged newest first and only once the broker has seen them all ----
+	if l := link(); l != nil && !withCut && t.Bool("probe-acks-newest-first", 1, 3) {
+		allIdle := true
+		for ti := 0; ti < nCallers; ti++ {
+			allIdle = allIdle && s.Idle(ti)
+		}
+		if allIdle && len(b.Pend) == 0 {
+			k := 2 + t.Choose("probe-nf-callers", nCallers-1)
+			seen0 := len(b.Calls)
+			var ops []*Op
+			for ti := 0; ti < k; ti++ {
+				n++
+				op := y.sendCallOp("call", fmt.Sprintf("nf%d", n), "payload-nf", "")
+				op.CtxKind, op.Timeout = "deadline", 20*time.Second
+				ops = append(ops, s.Start(ti, op))
+			}
+			s.Wait()
+			y.flushLinks()
+			s.Wait()
+			y.flushLinks()
+			s.Stat("env.concurrent-calls-acked-newest-first")
+			if got := len(b.Calls) - seen0; got < k && link() == l {
+				s.Violate("C16.call-held-behind-another-call", "", "%d goroutines called SendCall at the same time on a healthy connection; when all of them had come to rest only %d of the %d calls had been written: a call is not sent while another one waits for its ack, so a broker that acknowledges them in another order than they were issued can never do so", k, got, k)
+			}
+			var acks []*pend
+			for _, p := range b.Pend {
+				if p.Kind == "callack" {
+					acks = append(acks, p)
+				}
+			}
+			for i := len(acks) - 1; i >= 0; i-- {
+				b.Release(acks[i], nil)
+				y.flushLinks()
+				s.Wait()
+			}
+			y.PumpUntil(func() bool {
+				for _, op := range ops {
+					if !op.harvested {
+						return false
+					}
+				}
+				return true
+			}, 500*time.Millisecond, 5*time.Second)
+			for _, op := range ops {
+				if link() != l {
+					break
+				}
+				if !op.harvested {
+					s.Violate("C16.caller-stuck", "acks-newest-first", "SendCall(%s) has not returned 5 s after the broker acknowledged all %d concurrent calls, newest first", op.Args, k)
+				} else if op.Err != nil {
+					s.Violate("C16.caller-error", "acks-newest-first:"+errClass(op.Err), "SendCall(%s) failed with %q although the broker acknowledged all %d concurrent calls (newest first)", op.Args, errString(op.Err), k)
+				}
+			}
+		}
+	}
 	// ---- probe: a reply that is delayed across a reconnect still reaches its caller ----
 	if l := link(); l != nil && s.Idle(0) && t.Bool("probe-reply-across-reconnect", 1, 2) {
 		variant := Pick(t, "probe-variant", "ack-then-cut", "cut-then-call")
